@@ -162,3 +162,66 @@ V('th2-cursor-beg', ['C16'], GH,
 V('th2-drop-overlap', ['C16'], GH,
   "                overlaps.append((s, h.lin + 1))\n                continue\n",
   "                continue\n", 'TH2')
+
+# ---------------------------------------------------------------- MT
+V('mt1-paren', ['C10', 'C11'], MP,
+  "if inline or (next_repl or op and first_part) and elem:",
+  "if (inline or next_repl or op and first_part) and elem:", 'MT1')
+V('mt1-neutral-paren', ['C10', 'C11'], MP,
+  "if inline or (next_repl or op and first_part) and elem:",
+  "if inline or ((next_repl or (op and first_part)) and elem):", [])
+V('mt1-no-punct-repl', ['C10', 'C11'], MP,
+  "                out.append(defs.TextToken(tok.pos, c, pos_fix=True))\n                next_repl = True\n",
+  "                out.append(defs.TextToken(tok.pos, c, pos_fix=True))\n", 'MT1')
+V('mt1-opword-inline', ['C10', 'C11'], MP,
+  "if not inline and first_part and op:", "if first_part and op:", 'MT1')
+V('mt1-order', ['C10', 'C11'], MP,
+  "            if tok.end_space():\n                out.append(defs.SpaceToken(tok.pos, ' ', pos_fix=True))\n        return out, next_repl",
+  "        return out, next_repl", 'MT1')
+V('mt1-neutral-rename', ['C10', 'C11'], MP,
+  "            op = tok.leading_op()\n            elem = tok.has_elem(parms)\n            if not inline and first_part and op:",
+  "            elem = tok.has_elem(parms)\n            op = tok.leading_op()\n            if (not inline) and first_part and op:", [])
+V('mt2-inline-flag', ['C10'], MP,
+  "t, x = self.replace_section(True, tokens, True, True,", "t, x = self.replace_section(True, tokens, True, False,", 'MT2')
+V('mt2-collection', ['C10', 'C11'], MP,
+  "self.parser.parms.lang_context.math_repl_inline)", "self.parser.parms.lang_context.math_repl_display)", 'MT2')
+V('mt2-simple-punct', ['C11'], MP,
+  "                txt = self.parser.get_text_direct(out).strip()\n                out = [defs.ActionToken(start_simple),",
+  "                txt = self.parser.get_text_direct(sec).strip()\n                out = [defs.ActionToken(start_simple),", 'MT2')
+V('mt3-environ', ['C11'], 'yalafi/packages/amsmath.py',
+  "        EquEnv(parms, 'gather'),", "        Environ(parms, 'gather'),", 'MT3')
+V('lc1-cached', ['C10', 'C11', 'C12'], MP,
+  "    def __init__(self, parser):\n        self.parser = parser\n",
+  "    def __init__(self, parser):\n        self.parser = parser\n        self.repl_inline = parser.parms.lang_context.math_repl_inline\n", 'LC1')
+# ---------------------------------------------------------------- misc
+V('pd0-drop-posfix', ['C01', 'C04'], 'yalafi/defs.py',
+  "class SpaceToken(TextToken):\n    def __init__(self, pos, txt, pos_fix=False):\n        super().__init__(pos, txt, pos_fix)",
+  "class SpaceToken(TextToken):\n    def __init__(self, pos, txt, pos_fix=False):\n        super().__init__(pos, txt)", 'PD0')
+V('pd0-default-true', ['C06', 'C01'], 'yalafi/defs.py',
+  "class SpaceToken(TextToken):\n    def __init__(self, pos, txt, pos_fix=False):",
+  "class SpaceToken(TextToken):\n    def __init__(self, pos, txt, pos_fix=True):", 'PD0')
+V('tx1-normalize', ['C01', 'C02'], T2,
+  "    parms = parameters.Parameters(opts.lang or '')\n",
+  "    latex = latex.replace('\\r\\n', '\\n')\n    parms = parameters.Parameters(opts.lang or '')\n", 'TX1')
+V('df1-keep-extracted', ['C01', 'C03'], P,
+  "            self.extracted = []\n        main += self.parser_work(latex)", "        main += self.parser_work(latex)", 'DF1')
+V('df1-unfiltered', ['C03'], P,
+  "main = utils.filter_set_toks(toks, 0, defs.LanguageToken)", "main = utils.filter_set_toks(toks, 0, None)", 'DF1')
+V('uk-math', ['C19'], P,
+  "            if not (math or tok.txt in self.unknowns):", "            if not (tok.txt in self.unknowns):", 'UK')
+V('uk-dup', ['C19'], P,
+  "            if not (math or name in self.unknowns):", "            if not math:", 'UK')
+V('uk-mathflag', ['C19'], MP,
+  "t = parser.expand_macro(buf, tok, True)", "t = parser.expand_macro(buf, tok, False)", 'UK')
+V('uk-neutral', ['C19'], P,
+  "            if not (math or tok.txt in self.unknowns):\n                self.unknowns.append(tok.txt)",
+  "            if not math and tok.txt not in self.unknowns:\n                self.unknowns.append(tok.txt)", [])
+V('dt1-comment-leak', ['C03'], P,
+  "            elif type(tok) is defs.CommentToken:\n                pass\n", "", 'DT1')
+V('ex2-double', ['C03', 'C10'], 'yalafi/handlers.py',
+  "    if args[0]:\n        out = [defs.TextToken(pos, '[0,', pos_fix=True),",
+  "    if parser.get_text_expanded(args[0]).strip():\n        out = [defs.TextToken(pos, '[0,', pos_fix=True),", 'EX2')
+V('oks-diff', ['C14', 'C15'], 'yalafi/shell/utils.py',
+  "length = abs(charmap[end]) - abs(charmap[beg]) + 1", "length = abs(charmap[end] - charmap[beg]) + 1", 'OKS')
+V('ml6-order', ['C12'], 'yalafi/packages/babel.py',
+  "get_language_token(parser.global_latex_options + options)", "get_language_token(options + parser.global_latex_options)", 'ML6')
